@@ -8,7 +8,10 @@ package main
 // report a violation. A control whose anchor text is no longer present, or
 // whose mutant does not type-check, is reported "skipped" and does not fail the
 // check (the tree may legitimately have changed); a control that applies but is
-// not detected makes the check fail (META.CONTROL): the rule has gone blind.
+// not detected is printed as CONTROL-WARNING and recorded in the evidence: after
+// a refactoring the mutated construct may have become redundant, so it must not
+// fail a check on a tree where the property holds (vacuity is guarded by the
+// minimum instance counts of the rules).
 
 import (
 	"fmt"
